@@ -599,13 +599,42 @@ def promoted_value(unit, k):
     return vals
 
 
+def const_item_value(unit, k):
+    """a named constant of the crate (`const MIN_TASKS: isize = 1`) used as an operand: the literal it is defined as, else None"""
+    if not isinstance(k, dict) or 'item' not in k or 'promoted' in k:
+        return None
+    cb = unit.body(k['item'])
+    if cb is None or cb.kind not in ('const', 'static'):
+        return None
+    for b in cb.blocks:
+        for s in b['stmts']:
+            if s['p'] == [0, []] and s['rv']['k'] == 'use' and op_const(s['rv']['op']) and (s['rv']['op']['k'].get('v') not in (None, '?')) and 'item' not in s['rv']['op']['k']:
+                return const_val(s['rv']['op'])
+    return None
+
+
+def const_int_u(unit, op):
+    """const_int that also knows the named constants of the crate"""
+    v = const_int(op)
+    if v is not None:
+        return v
+    k = op.get('k') if isinstance(op, dict) else None
+    cv = const_item_value(unit, k) if k else None
+    if cv is not None:
+        return const_int({'k': {'v': cv}})
+    return None
+
+
 def slice_const_values(unit, sl):
-    """all constant values (including promoted ones) a slice bottoms out in"""
+    """all constant values (including promoted ones and the named constants of the crate) a slice bottoms out in"""
     out = []
     for k in sl.consts:
         pv = promoted_value(unit, k)
+        cv = const_item_value(unit, k)
         if pv is not None:
             out.extend(pv)
+        elif cv is not None:
+            out.append(cv)
         elif 'v' in k:
             out.append(k['v'])
         elif 'fn' in k:
